@@ -118,45 +118,6 @@ def ParserSx (e : BSx) : Prop :=
 def C16_builder_total_full : Prop :=
   ∀ (cfg : Config) (e : BSx), ParserSx e → ∀ err, build cfg e = .error err → Good err
 
-/-! ## The residual case -/
-
-/-- `register r[2]; macro m p { g p[r] }` -/
-def progParamIndex : BSx :=
-  .list [.str "circuit", .list [.str "register", .str "r", .int 2],
-    .list [.str "macro", .str "m", .str "p", .list [.str "sequential_block",
-      .list [.str "gate", .str "g", .list [.str "array_item", .str "p", .str "r"]]]]]
-
-example : ParserSx progParamIndex :=
-  ⟨[.list [.str "register", .str "r", .int 2]],
-   [.list [.str "macro", .str "m", .str "p", .list [.str "sequential_block",
-      .list [.str "gate", .str "g", .list [.str "array_item", .str "p", .str "r"]]]]], rfl, by decide, by decide⟩
-
-def errOf (r : M Circuit) : Option Err :=
-  match r with
-  | .error e => some e
-  | .ok _ => Option.none
-
-/-- On this parser-produced input the model leaves its domain (the real builder accepts the program, with a
-`Register` as the index of the qubit `p[…]`). -/
-theorem C16_residual_parameter_index : errOf (build {} progParamIndex) = some (unmodelledName "qubit-name") := by
-  decide
-
-theorem C16_builder_total_full_false : ¬ C16_builder_total_full := by
-  intro h
-  have hp : ParserSx progParamIndex :=
-    ⟨[.list [.str "register", .str "r", .int 2]],
-     [.list [.str "macro", .str "m", .str "p", .list [.str "sequential_block",
-        .list [.str "gate", .str "g", .list [.str "array_item", .str "p", .str "r"]]]]], rfl, by decide, by decide⟩
-  have hres := C16_residual_parameter_index
-  cases hb : build {} progParamIndex with
-  | ok c => rw [hb] at hres; simp [errOf] at hres
-  | error err =>
-    rw [hb] at hres
-    simp only [errOf, Option.some.injEq] at hres
-    rcases h {} progParamIndex hp err hb with ⟨r, hr⟩ | hr
-    · rw [hr] at hres; simp [unmodelledName] at hres
-    · rw [hr] at hres; simp [unmodelledName] at hres
-
 /-! ## Leaf facts (unconditional) -/
 
 theorem mkRegister_err {n : String} {size : Val} {e : Err} (h : mkRegister n size = .error e) : Good e := by
@@ -216,5 +177,3 @@ theorem tooManyRegisters_err {c : Circuit} {e : Err} (h : tooManyRegisters c = .
 
 end Jaqal.Builder
 
-#print axioms Jaqal.Builder.C16_residual_parameter_index
-#print axioms Jaqal.Builder.C16_builder_total_full_false
